@@ -76,7 +76,18 @@ def strata(tier):
         t = leaves_[0]
         for x in leaves_[1:]:
             t = {"c": op, "a": t, "b": x} if j % 4 < 2 else {"c": op, "a": x, "b": t}
-        yield {"mode": "tree", "via": "spec" if j % 2 else "op", "container": cont, "tree": t}
+        yield {"mode": "tree", "via": "spec" if j % 2 else "op", "container": cont, "tree": t, "flatten": True}
+        if j % 4 < 2:
+            yield {"mode": "tree", "via": "spec", "container": cont, "tree": t, "flatten": True}
+    for n in (3, 5, 8, 9, 10, 11, 13, 16, 17, 19):
+        # n operands in ONE spec list (odd sizes, sizes around powers of two)
+        rng = G.rng_for("C02-nlist", n)
+        for op in OPS:
+            leaves_ = [_leaf(rng, ["value"], PROBE_LIST) for _ in range(n)]
+            t = leaves_[0]
+            for x in leaves_[1:]:
+                t = {"c": op, "a": t, "b": x}
+            yield {"mode": "tree", "via": "spec", "container": PROBE_LIST, "tree": t, "flatten": True}
     for j in range(40 if tier == "quick" else 200):
         yield gen_history(G.rng_for("C02-hist", j), 30 if tier == "quick" else 120)
 
@@ -265,7 +276,7 @@ def run_tree(case, ctx):
             ctx.violate(f"C02/{obj.key()}/{kcls}", f"construction raised {obj!r}; term={t}")
             return
     else:
-        spec = nary_spec(t, G.rng_for(repr(t)[:200]))
+        spec = nary_spec(t, None if case.get("flatten") else G.rng_for(repr(t)[:200]))
         ok, obj = call(C.ConditionLike.from_spec, spec)
         if not ok:
             ctx.violate(f"C02/{obj.key()}/{kcls}/spec", f"from_spec raised {obj!r}; spec={spec}")
